@@ -40,9 +40,10 @@ CFG = {
         "are called for; value sizes are encoded in the value's number (hundreds digits) so that model and harness agree on Size(); locHash(MinInt) is negative and the "
         "caller panics before anything is accepted (DESIGN section 8), so lochash_in_range carries that guard; the "
         "a cached nil stands for 'the store holds nothing for the key' (store row absent = nil), so coherence with "
-        "nil values is the same equation; context cancellation is exercised in sequential histories only (in a "
-        "scheduled run a caller that leaves early would no longer signal completion) - the theorems do not depend on "
-        "it because no handler reads the context; the "
+        "nil values is the same equation; context cancellation by a callback is exercised in sequential histories; in scheduled runs the scheduler itself "
+        "cancels the context of the job a worker is parked in (machine label GAbandon: the caller gets the context's "
+        "error, nothing else changes, the job's result then goes nowhere), its end being observed at the worker's "
+        "arrival at the next job; the theorems quantify over schedules containing such labels; the "
         "machine's atomic step is one instrumented call (cache call or store callback) - sound because the caches "
         "and the queue are lock-protected (lint) and a worker is one goroutine. No axioms, nothing PENDING."
     ),
@@ -52,7 +53,10 @@ CFG = {
         "WithLRU, callback faults at rate 0/0.1/0.25/0.5, '(nil, nil)' answers at rate 0/0.05/0.15, context "
         "cancellation by a callback at rate 0/0.08/0.2 (each followed by a barrier call); non-trivial = at least one cache hit and one successful "
         "store write. scheduled: 3..12 jobs on 1..3 keys, 1..3 workers, queue bound 0/1/2, a random interleaving of "
-        "call / single-call worker steps / Stop; non-trivial = at least 6 labels and (a fast-path hit or >= 3 jobs). "
+        "call / single-call worker steps / Stop; callers giving up: 120 runs in which the caller of a Get has its "
+        "context cancelled while the worker is parked inside the load of that key (label GAbandon), the same "
+        "goroutine goes straight on to a Get of another key (same or another worker; possibly abandoned in turn), a "
+        "barrier behind every abandoned job makes its end observable, the rest is scheduled at random; non-trivial = at least 6 labels and (a fast-path hit or >= 3 jobs). "
         "distinct = distinct (configuration, inputs, observation)"
     ),
     "trusted": [
